@@ -212,7 +212,7 @@ def run(ctx):
                             kinds.add("null-const")
                         elif c[0] == "call" and c[1]["path"] == CLONE:
                             o = strip_refs(cb.xtrace(cb.blocks[c[3]]["term"]["args"][0]))
-                            if o[0] == "call" and o[1]["path"].endswith("Index<I>>::index") and const_value(strip_refs(o[2][1])[1]) == 1:
+                            if operand_index(o) == 1:
                                 kinds.add("operand1")
                             else:
                                 kinds.add("other:" + show_expr(o)[:40])
@@ -228,7 +228,7 @@ def run(ctx):
                         kinds.add("null-const")
                     elif c[0] == "call" and c[1] and c[1]["path"] == CLONE:
                         o = strip_refs(c[2][0])
-                        if o[0] == "call" and o[1]["path"].endswith("Index<I>>::index") and const_value(strip_refs(o[2][1])[1]) == 1:
+                        if operand_index(o) == 1:
                             kinds.add("operand1")
                         else:
                             kinds.add("other:" + show_expr(o)[:40])
@@ -292,6 +292,20 @@ def run(ctx):
                 clos = strip_refs(fold[2][2])
                 if clos[0] == "agg" and clos[1].get("agg") == "Closure":
                     step_matrix(ctx, facts, roles, facts.body(clos[1]["closure"]), helper, cfg)
+
+
+def operand_index(o):
+    """Index n when expression o is the n-th element of an operand vector: v[n], v.get(n)?, v.first()? — else None."""
+    o = strip_payload(strip_refs(o))
+    if o[0] != "call" or not o[1]:
+        return None
+    p = o[1]["path"]
+    if p.endswith("Index<I>>::index") or re.search(r"^core::slice::<impl \[T\]>::get$|^std::vec::Vec::<T, A>::get$", p):
+        i = strip_refs(o[2][1])
+        return const_value(i[1]) if i[0] == "const" else None
+    if re.search(r"^core::slice::<impl \[T\]>::first$", p):
+        return 0
+    return None
 
 
 def split_transducer(ctx, facts, w, it, cfg):
